@@ -53,8 +53,8 @@ def run(rep):
             npos = max([i for (mm, i) in pool if mm == m] + [-1]) + 1
             k = rnd.randint(0, npos)
             args = [rnd.choice(list(pool[(m, i)].values())) for i in range(k)]
-            if m == "repeat" and n > 3:
-                continue
+            if m == "repeat":
+                continue        # counts from the grid reach 2^31: only the enumerated (Supported) repeat cases are run
             allc.append({"id": len(allc), "m": m, "recv": {"k": "str", "u": u}, "args": args, "random": True,
                          "intrep": rnd.random() < 0.3})
             nrandom += 1
